@@ -233,6 +233,101 @@ NEEDS_DIR = ("        if any(v[2] != 0 and k not in shares for (k, v) in test_an
              "            fileutil.make_dirs(bucketdir)\n")
 ALLOC_NO_MAKE_DIRS = (ALLOC_MAKE_DIRS, "        filename = os.path.join(bucketdir, \"%d\" % sharenum)\n")
 
+# the refactor of seeded C23-I done faithfully (the container is enlarged first, then the gap is zero-filled):
+# _write_share_data is flattened into the helpers _zero_fill / _ensure_container_holds, so _change_container_size is
+# reached through a helper of the allowed step instead of from _write_share_data itself (C24.7 follows the helper)
+MSF_WRITE_SHARE_DATA = (
+    "    def _write_share_data(self, f, offset, data):\n"
+    "        length = len(data)\n"
+    "        precondition(offset >= 0)\n"
+    "        data_length = self._read_data_length(f)\n"
+    "        extra_lease_offset = self._read_extra_lease_offset(f)\n"
+    "\n"
+    "        if offset+length >= data_length:\n"
+    "            # They are expanding their data size.\n"
+    "\n"
+    "            if self.DATA_OFFSET+offset+length > extra_lease_offset:\n"
+    "                # TODO: allow containers to shrink. For now, they remain\n"
+    "                # large.\n"
+    "\n"
+    "                # Their new data won't fit in the current container, so we\n"
+    "                # have to move the leases. With luck, they're expanding it\n"
+    "                # more than the size of the extra lease block, which will\n"
+    "                # minimize the corrupt-the-share window\n"
+    "                self._change_container_size(f, offset+length)\n"
+    "                extra_lease_offset = self._read_extra_lease_offset(f)\n"
+    "\n"
+    "                # an interrupt here is ok.. the container has been enlarged\n"
+    "                # but the data remains untouched\n"
+    "\n"
+    "            assert self.DATA_OFFSET+offset+length <= extra_lease_offset\n"
+    "            # Their data now fits in the current container. We must write\n"
+    "            # their new data and modify the recorded data size.\n"
+    "\n"
+    "            # Fill any newly exposed empty space with 0's.\n"
+    "            if offset > data_length:\n"
+    "                f.seek(self.DATA_OFFSET+data_length)\n"
+    "                f.write(b'\\x00'*(offset - data_length))\n"
+    "                f.flush()\n"
+    "\n"
+    "            new_data_length = offset+length\n"
+    "            self._write_data_length(f, new_data_length)\n"
+    "            # an interrupt here will result in a corrupted share\n"
+    "\n"
+    "        # now all that's left to do is write out their data\n"
+    "        f.seek(self.DATA_OFFSET+offset)\n"
+    "        f.write(data)\n"
+    "        return\n")
+MSF_WRITE_SHARE_DATA_SPLIT = (
+    "    def _zero_fill(self, f, start, end):\n"
+    "        # Fill any newly exposed empty space with 0's.\n"
+    "        if end > start:\n"
+    "            f.seek(self.DATA_OFFSET+start)\n"
+    "            f.write(b'\\x00'*(end - start))\n"
+    "            f.flush()\n"
+    "\n"
+    "    def _ensure_container_holds(self, f, data_end):\n"
+    "        if self.DATA_OFFSET+data_end > self._read_extra_lease_offset(f):\n"
+    "            # Their new data won't fit in the current container, so we\n"
+    "            # have to move the leases.\n"
+    "            self._change_container_size(f, data_end)\n"
+    "\n"
+    "        assert self.DATA_OFFSET+data_end <= self._read_extra_lease_offset(f)\n"
+    "\n"
+    "    def _write_share_data(self, f, offset, data):\n"
+    "        precondition(offset >= 0)\n"
+    "        data_length = self._read_data_length(f)\n"
+    "        new_data_length = offset + len(data)\n"
+    "\n"
+    "        if new_data_length >= data_length:\n"
+    "            # They are expanding their data size: make sure it all fits in\n"
+    "            # the container, pad the gap (if any) between the old end of the\n"
+    "            # data and the start of theirs, then record the new data size.\n"
+    "            self._ensure_container_holds(f, new_data_length)\n"
+    "            self._zero_fill(f, data_length, offset)\n"
+    "            self._write_data_length(f, new_data_length)\n"
+    "            # an interrupt here will result in a corrupted share\n"
+    "\n"
+    "        # now all that's left to do is write out their data\n"
+    "        f.seek(self.DATA_OFFSET+offset)\n"
+    "        f.write(data)\n")
+C23I_OTHER_HUNKS = [
+    (MUT, "        if offset+length > data_length:\n"
+          "            # reads beyond the end of the data are truncated. Reads that\n"
+          "            # start beyond the end of the data return an empty string.\n"
+          "            length = max(0, data_length-offset)\n",
+          "        # reads beyond the end of the data are truncated. Reads that\n"
+          "        # start beyond the end of the data return an empty string.\n"
+          "        length = max(0, min(length, data_length-offset))\n"),
+    (MUT, "        data = f.read(length)\n        return data\n", "        return f.read(length)\n"),
+    (MUT, "            if new_length is not None:\n"
+          "                cur_length = self._read_data_length(f)\n"
+          "                if new_length < cur_length:\n"
+          "                    self._write_data_length(f, new_length)\n",
+          "            if new_length is not None and new_length < self._read_data_length(f):\n"
+          "                self._write_data_length(f, new_length)\n"),
+]
+
 MUTANTS = [
     # ---- C24.13 the bucket directory is there whenever a share is created in it
     M("tidy-up-rmdir-left-in-loop", SRV, EWV_BODY, _ewv_tidy(True), "C24.13", edits=[(SRV, ALLOC, ALLOC_TIDY)],
@@ -584,6 +679,32 @@ MUTANTS = [
       "                self.log(\"testv failed: [%d]: %r\" % (sharenum, testv))\n"
       "                return False\n", None),
     M("benign-guard-compared-to-true", SRV, "        if testv_is_good:\n            # now apply", "        if not (not testv_is_good):\n            # now apply", None),
+    # ---- C24.7 through helpers split out of an allowed step (seeded C23-I, the refactor done faithfully)
+    M("benign-write-share-data-split-faithful", MUT, MSF_WRITE_SHARE_DATA, MSF_WRITE_SHARE_DATA_SPLIT, None,
+      edits=C23I_OTHER_HUNKS,
+      note="the refactor of seeded C23-I done faithfully: _change_container_size is called by _ensure_container_holds, whose "
+           "only caller is _write_share_data - the write path is still entered only through the guarded chain"),
+    M("split-helper-exposed-as-reserve", MUT, MSF_WRITE_SHARE_DATA,
+      MSF_WRITE_SHARE_DATA_SPLIT +
+      "\n    def reserve(self, size):\n"
+      "        # let a client pre-size the container\n"
+      "        with open(self.home, 'rb+') as f:\n"
+      "            self._ensure_container_holds(f, size)\n", "C24.7", edits=C23I_OTHER_HUNKS,
+      note="refactored shape: the helper that enlarges the container is also reachable through a new entry point that no "
+           "write enabler / test vector guards"),
+    M("split-helper-called-from-add-lease", MUT, MSF_WRITE_SHARE_DATA, MSF_WRITE_SHARE_DATA_SPLIT, "C24.7",
+      edits=C23I_OTHER_HUNKS + [
+          (MUT, "            num_lease_slots = self._get_num_lease_slots(f)\n            empty_slot = self._get_first_empty_lease_slot(f)\n"
+                "            if empty_slot is not None:\n                self._write_lease_record(f, empty_slot, lease_info)\n            else:\n",
+                "            num_lease_slots = self._get_num_lease_slots(f)\n            empty_slot = self._get_first_empty_lease_slot(f)\n"
+                "            self._ensure_container_holds(f, self._read_data_length(f) + lease_info.mutable_size())\n"
+                "            if empty_slot is not None:\n                self._write_lease_record(f, empty_slot, lease_info)\n            else:\n")],
+      note="refactored shape: add_lease (no write enabler, no test vector) moves the lease block through the split-out helper"),
+    M("split-helper-handed-out-as-value", MUT, MSF_WRITE_SHARE_DATA,
+      MSF_WRITE_SHARE_DATA_SPLIT +
+      "\n    def get_resizer(self):\n"
+      "        return self._ensure_container_holds\n", "C24.7", edits=C23I_OTHER_HUNKS,
+      note="refactored shape: the helper escapes as a bound method through a function outside the chain"),
     # ---- vanished anchor
     M("vanish-collect", SRV, "    def _collect_mutable_shares_for_storage_index(self, bucketdir, write_enabler, si_s):",
       "    def _collect_mutable_shares_for_storage_indexX(self, bucketdir, write_enabler, si_s):", "ANALYSIS-ERROR"),
